@@ -1,5 +1,6 @@
 import IV.Model.Proto
 import IV.Model.Serde
+import IV.Model.SerdeDetect
 open IV IV.Proto IV.Serde
 
 /-! line-protocol driver for C11 (glue, not model) -/
@@ -234,6 +235,30 @@ def handle (st : St) (fs : List String) : St × String :=
       let showNs (l : List Nat) : String := if l.isEmpty then "-" else ".".intercalate (l.map natHex)
       (st, showNs (jsonEscape xs) ++ "|" ++ showNs (jsonUnescape (jsonEscape xs)))
     | none => (st, "bad-op")
+  | ["detect", reg, files] =>
+    -- reg: "name=marker;name=!" (registration order), files: enc strings joined by ';' ("" = no files)
+    -- answer: invalid | ctx|name|root chosen in file order|all candidate roots of the least length (sorted)
+    let decAll (f : String) : Option (List Str) :=
+      if f = "" then some [] else
+      (f.splitOn ";").foldr (fun p acc => match acc, decStr p with
+        | some xs, some x => some (x :: xs) | _, _ => none) (some [])
+    let regs : Option (List CtxDecl) :=
+      (reg.splitOn ";").foldr (fun p acc => match acc, p.splitOn "=" with
+        | some xs, [n, m] => (match decStr n, (if m = "!" then some none else (decStr m).map some) with
+            | some n, some m => some (⟨n, m⟩ :: xs) | _, _ => none)
+        | _, _ => none) (some [])
+    match regs, decAll files with
+    | some rg, some fl =>
+      (match createContext rg fl with
+       | .invalid => (st, "invalid")
+       | .ctx r n =>
+         let cands : List Str := match (rg.reverse.find? (fun e => (handles e.marker fl).isSome)) with
+           | some e => (match e.marker with | some mk => markerRoots mk fl | none => [])
+           | none => []
+         let least := cands.foldl (fun a x => min a x.length) r.length
+         let mins := ((cands.filter (fun x => x.length == least)).map encStr).eraseDups.toArray.qsort (· < ·) |>.toList
+         (st, "ctx|" ++ encStr n ++ "|" ++ encStr r ++ "|" ++ ";".intercalate mins))
+    | _, _ => (st, "bad-op")
   | ["mangle", cmd] =>
     match decStr cmd with
     | some c => (st, encStr (mangle driverIsWord c))
